@@ -759,3 +759,203 @@ def s2(ctx):
               any(cn.kind == 'cond' and cn.ast is not None and 'is_none' in cn.ast.text(5)
                   for cn in cfg.nodes),
               'non-custom kinds reject non-None entries/type slots', None, f.loc)
+
+
+# ---------------------------------------------------------------------------------------------
+def _poly(e, inits, depth=0):
+    """Integer expression -> polynomial {monomial(tuple of sorted atoms): coeff} over atoms: member
+    paths, `size(<container path>)`, zero-argument accessors.  Locals with one initialiser are
+    expanded.  None when the expression has a shape this does not understand."""
+    e = strip_casts(e)
+    if e is None or depth > 6:
+        return None
+    v = const_eval(e)
+    if isinstance(v, bool):
+        v = int(v)
+    if isinstance(v, int):
+        return {(): v} if v else {}
+    if e.kind in CALL_KINDS:
+        cn = e.callee_name()
+        args = [a for a in e.call_args() if a is not None and a.kind != 'CXXDefaultArgExpr']
+        if cn in ('ssize_t_cast', 'static_cast') and len(args) == 1:
+            return _poly(args[0], inits, depth + 1)
+        if cn in ('size', 'GetNumLeaves', 'GetNumNodes', 'GetNumChildren') and not args:
+            b = member_path(e.call_base()) if e.call_base() is not None else 'this'
+            return {('%s(%s)' % (cn, b or '?'),): 1}
+        return None
+    if e.kind == 'ConditionalOperator' and len(e.kids) == 3:
+        a, b = _poly(e.kids[1], inits, depth + 1), _poly(e.kids[2], inits, depth + 1)
+        if a is None or b is None:
+            return None
+        # c ? a : b  ==  b + [c] * (a - b)
+        c = '[%s]' % strip_casts(e.kids[0]).text(5)
+        out = dict(b)
+        for m, k in a.items():
+            out[tuple(sorted(m + (c,)))] = out.get(tuple(sorted(m + (c,))), 0) + k
+        for m, k in b.items():
+            out[tuple(sorted(m + (c,)))] = out.get(tuple(sorted(m + (c,))), 0) - k
+        return {m: k for m, k in out.items() if k}
+    if e.kind == 'BinaryOperator' and e.op in ('+', '-', '*') and len(e.kids) == 2:
+        a, b = _poly(e.kids[0], inits, depth + 1), _poly(e.kids[1], inits, depth + 1)
+        if a is None or b is None:
+            return None
+        out = {}
+        if e.op in ('+', '-'):
+            sgn = 1 if e.op == '+' else -1
+            for m, k in a.items():
+                out[m] = out.get(m, 0) + k
+            for m, k in b.items():
+                out[m] = out.get(m, 0) + sgn * k
+        else:
+            for m1, k1 in a.items():
+                for m2, k2 in b.items():
+                    m = tuple(sorted(m1 + m2))
+                    out[m] = out.get(m, 0) + k1 * k2
+        return {m: k for m, k in out.items() if k}
+    if e.kind == 'UnaryOperator' and e.op == '-' and e.kids:
+        a = _poly(e.kids[0], inits, depth + 1)
+        return None if a is None else {m: -k for m, k in a.items()}
+    p = member_path(e)
+    if p:
+        if '.' not in p and p in inits and inits[p] is not None:
+            sub = _poly(inits[p], inits, depth + 1)
+            if sub is not None:
+                return sub
+        return {(p,): 1}
+    return None
+
+
+def _fmt_poly(p):
+    if p is None:
+        return '?'
+    if not p:
+        return '0'
+    return ' + '.join(('%d' % k if not m else ('%s%s' % ('' if k == 1 else '%d*' % k, '*'.join(m))))
+                      for m, k in sorted(p.items()))
+
+
+@rule('M8', floor=8, title='the node producers count leaves and nodes of a subtree the same way')
+def m8(ctx):
+    """num_nodes of a node is 1 + the nodes added since the step began, num_leaves the leaves added
+    since the step began (flatten, flatten-with-path: differences of the output sizes against
+    snapshots taken before anything was appended); a constructed node has the leaves / nodes of its
+    child treespecs (+1 leaf if it is itself a leaf, +1 node); a composed node has
+    leaves*inner_leaves leaves and (nodes - leaves) + leaves*inner_nodes nodes.  The expressions are
+    compared as polynomials, so their spelling does not matter."""
+    prog = ctx.cxx()
+
+    def assigned(f, field):
+        out = []
+        for n in f.body.walk():
+            lhs = rhs = None
+            if n.kind == 'BinaryOperator' and n.op == '=':
+                lhs, rhs = n.kids
+            if lhs is not None and lhs.kind == 'MemberExpr' and lhs.name == field and _base_is(lhs, 'Node'):
+                out.append((n, rhs))
+        return out
+    # flatten variants: snapshots of the two output sizes, taken before any recursion
+    for name in ('PyTreeSpec::FlattenIntoImpl', 'PyTreeSpec::FlattenIntoWithPathImpl'):
+        for f in [x for x in prog.by_suffix(name) if not x.dependent]:
+            inits = local_inits(f)
+            cfg = cfg_of(f)
+            snaps = {}
+            for v in f.body.find('VarDecl'):
+                if v.kids and v.name and (v.type or '').startswith('const '):
+                    p = _poly(v.kids[-1], {})
+                    if p and len(p) == 1 and list(p.values()) == [1] and list(p)[0] and list(p)[0][0].startswith('size('):
+                        snaps[v.name] = (list(p)[0][0], v)
+            pushes = [c for c in calls_in(f.body, {'emplace_back', 'push_back'})]
+            problems = []
+            for field, plus in (('num_nodes', 1), ('num_leaves', 0)):
+                asg = assigned(f, field)
+                if len(asg) != 1:
+                    problems.append('%s is assigned %d times' % (field, len(asg)))
+                    continue
+                p = _poly(asg[0][1], {})
+                ok = False
+                if p is not None:
+                    consts = p.get((), 0)
+                    sizes = [(m[0], k) for m, k in p.items() if len(m) == 1 and m[0].startswith('size(')]
+                    names_ = [(m[0], k) for m, k in p.items() if len(m) == 1 and not m[0].startswith('size(')]
+                    if consts == plus and len(sizes) == 1 and sizes[0][1] == 1 and len(names_) == 1 and \
+                            names_[0][1] == -1 and names_[0][0] in snaps and snaps[names_[0][0]][0] == sizes[0][0] \
+                            and len(p) == (3 if plus else 2):
+                        # the snapshot precedes every append to that container in this activation
+                        sn = cfg.cnode_of(snaps[names_[0][0]][1])
+                        cont = sizes[0][0][5:-1]
+                        late = [c for c in pushes if member_path(c.call_base()) == cont and
+                                cfg.cnode_of(c) is not None and sn is not None and
+                                not cfg.dominates(sn, cfg.cnode_of(c))]
+                        ok = not late
+                if not ok:
+                    problems.append('%s = %s' % (field, _fmt_poly(p)))
+            ctx.check('%s/counts' % short(f), not problems,
+                      '%s: num_nodes = nodes appended since the step began + 1, num_leaves = leaves '
+                      'appended since the step began' % inst(f),
+                      '%s counts its subtree as %s: the counts of this node (and of every ancestor) '
+                      'do not describe the subtree' % (inst(f), '; '.join(problems)), f.loc)
+    # constructor from child treespecs
+    for f in [x for x in prog.by_suffix('PyTreeSpec::MakeFromCollectionImpl') if not x.dependent]:
+        problems = []
+        inits = local_inits(f)
+        asg_l, asg_n = assigned(f, 'num_leaves'), assigned(f, 'num_nodes')
+        if len(asg_l) != 1 or len(asg_n) != 1:
+            problems.append('counts assigned %d / %d times' % (len(asg_l), len(asg_n)))
+        else:
+            pn = _poly(asg_n[0][1], {})
+            okn = pn is not None and pn.get((), 0) == 1 and len(pn) == 2 and \
+                any(len(m) == 1 and m[0].startswith('size(') and m[0].endswith('m_traversal)') and k == 1
+                    for m, k in pn.items())
+            if not okn:
+                problems.append('num_nodes = %s' % _fmt_poly(pn))
+            # num_leaves: an accumulator initialised with [kind == Leaf] and increased by the leaf
+            # count of every child treespec, unconditionally, in the loop over the children
+            acc = member_path(strip_casts(asg_l[0][1]))
+            init = inits.get(acc) if acc else None
+            pi = _poly(init, {}) if init is not None else None
+            oki = pi is not None and len(pi) == 1 and list(pi.values()) == [1] and \
+                'Leaf' in list(pi)[0][0] and '==' in list(pi)[0][0]
+            adds = [n for n in f.body.walk() if n.kind == 'CompoundAssignOperator' and n.op == '+=' and
+                    member_path(n.kids[0]) == acc]
+            oka = len(adds) == 1 and (_poly(adds[0].kids[1], {}) or {}).keys() and \
+                all(len(m) == 1 and m[0].startswith('GetNumLeaves(') and k == 1
+                    for m, k in (_poly(adds[0].kids[1], {}) or {(): 0}).items())
+            if oka:
+                parent = enclosing_map(f.body)
+                anc = ancestors(adds[0], parent)
+                loops = [a for a in anc if a.kind in ('CXXForRangeStmt', 'ForStmt', 'WhileStmt')]
+                conds = [a for a in anc if a.kind in ('IfStmt', 'ConditionalOperator', 'SwitchStmt')]
+                oka = len(loops) >= 1 and not conds
+            if not (oki and oka):
+                problems.append('num_leaves: starts as %s, %d accumulation(s)%s'
+                                % (_fmt_poly(pi), len(adds), '' if oka else ' (conditional or not per child)'))
+        ctx.check('%s/counts' % short(f), not problems,
+                  '%s: num_leaves = [root is a leaf] + the leaves of every child treespec, num_nodes = '
+                  'nodes copied + 1' % inst(f),
+                  '%s: %s' % (inst(f), '; '.join(problems)), f.loc)
+    # compose
+    f = prog.one('PyTreeSpec::Compose')
+    inits = local_inits(f)
+    problems = []
+    for field in ('num_leaves', 'num_nodes'):
+        asg = [a for a in assigned(f, field)]
+        ps = [_poly(r, inits) for _, r in asg]
+        if field == 'num_leaves':
+            ok = any(p is not None and len(p) == 1 and list(p.values()) == [1] and
+                     sorted(x.split('(')[0].split('.')[-1] for x in list(p)[0]) == ['GetNumLeaves', 'num_leaves']
+                     for p in ps)
+        else:
+            # (nodes - leaves) + leaves * inner_nodes
+            def shape(p):
+                if p is None or len(p) != 3:
+                    return False
+                lin = {m[0].split('.')[-1]: k for m, k in p.items() if len(m) == 1}
+                quad = [(sorted(x.split('(')[0].split('.')[-1] for x in m), k) for m, k in p.items() if len(m) == 2]
+                return lin == {'num_nodes': 1, 'num_leaves': -1} and quad == [(['GetNumNodes', 'num_leaves'], 1)]
+            ok = any(shape(p) for p in ps)
+        if not ok:
+            problems.append('%s = %s' % (field, ' | '.join(_fmt_poly(p) for p in ps) or 'never assigned'))
+    ctx.check('PyTreeSpec::Compose/counts', not problems,
+              'Compose: a node with l leaves and n nodes gets l*L leaves and (n - l) + l*N nodes '
+              '(L, N: leaves and nodes of the inner treespec)',
+              'Compose counts %s' % '; '.join(problems), f.loc)
